@@ -729,6 +729,26 @@ Fixpoint vserialisable {S : Type} (v : value S) : bool :=
   | _ => true
   end.
 
+(* Unicode scalar values (U+0000..U+D7FF, U+E000..U+10FFFF) and the UTF-8 encoding form (Unicode 3.9, table 3-6):
+   the specification `utf8_valid` is proved against in FfiCodec/Utf8.v *)
+Definition scalar (c : N) : bool := (c <? 55296) || ((57344 <=? c) && (c <? 1114112)).
+Definition utf8_char (c : N) : list N :=
+  if c <? 128 then [c]
+  else if c <? 2048 then [192 + c / 64; 128 + c mod 64]
+  else if c <? 65536 then [224 + c / 4096; 128 + (c / 64) mod 64; 128 + c mod 64]
+  else [240 + c / 262144; 128 + (c / 4096) mod 64; 128 + (c / 64) mod 64; 128 + c mod 64].
+Definition utf8_of (cs : list N) : list N := flat_map utf8_char cs.
+
+(* macro arguments *)
+Definition arg_ok (p : ffi_value * key) : bool := ffi_ok (fst p) && key_ok (snd p).
+Definition arg_refused (p : value str * key) : option ffi_err := first_refused (fst p).
+Definition arg_representable (p : value str * key) : bool := representable (fst p) && key_ok (snd p).
+(* a Symbol id (usize) *)
+Definition id_ok (s : N) : bool := s <? pow64.
+(* Type variants the hand-written Serialize accepts *)
+Definition ty_serialisable (t : ty) : bool :=
+  match t with TIntermediate _ | TTypeScheme _ => false | _ => true end.
+
 (* ------------------------------------------------------------------ *)
 (* agreement of the generated tables (evaluated by vm_compute in Props/C20.v)                         *)
 (* ------------------------------------------------------------------ *)
